@@ -304,10 +304,16 @@ func (server *Server) tlsServe(l net.Listener, tlsConfig *tls.Config) error {
 
 // tlsReceive completes the TLS handshake and handles the client connection.
 func (server *Server) tlsReceive(tlsConn *tls.Conn) error {
+	if !server.addPendingConn(tlsConn) {
+		return nil
+	}
 	if err := tlsConn.SetDeadline(time.Now().Add(tlsHandshakeTimeout)); err != nil {
+		server.removePendingConn(tlsConn)
 		return errors.Join(err, tlsConn.Close())
 	}
-	if err := tlsConn.Handshake(); err != nil {
+	err := tlsConn.Handshake()
+	server.removePendingConn(tlsConn)
+	if err != nil {
 		log.Error(err)
 		return errors.Join(err, tlsConn.Close())
 	}
